@@ -304,7 +304,7 @@ class Gen:
         if r.random() < 0.4 and self.f["order"]:
             idx = [i for i in range(len(q["sel"])) if self.f["order_const"] or has_col(q["sel"][i][0])]
             if q["dist"] and not self.f["distinct_order"]:
-                idx = [i for i in idx if q["sel"][i][0][0] == "col"]
+                idx = []
             r.shuffle(idx)
             q["ord"] = [(i, r.choice(["asc", "asc", "desc"])) for i in idx[:r.choice([1, 1, 2])]]
             if not idx:
